@@ -224,7 +224,24 @@ def enumerated_cycles():
     for n in (1, 2, 3):
         cps = "".join(f'<clipPath id="c{i}" clip-path="url(#c{(i + 1) % n})">{rect}</clipPath>' for i in range(n))
         out.append((HDR + f"<defs>{cps}</defs>" + '<rect x="1" y="1" width="40" height="40" clip-path="url(#c0)"/></svg>', f"clip_cycle_{n}_enum"))
-    return out
+    # the same layouts with the SVG 2 spelling (plain href), and with one link of each spelling
+    plain = []
+    for doc, label in out:
+        if "xlink:href=" in doc and not label.startswith("clip_cycle"):
+            plain.append((doc.replace("xlink:href=", "href="), label + "_plainhref"))
+            if doc.count("xlink:href=") >= 2:
+                plain.append((doc.replace("xlink:href=", "href=", 1), label + "_mixedhref"))
+    return out + plain
+
+
+def _respell(doc, label, rng):
+    """SVG 2 lets references be written href instead of xlink:href: all of them, or a random subset."""
+    k = rng.random()
+    if k < 0.2 and "xlink:href=" in doc:
+        return doc.replace("xlink:href=", "href="), label + "_plainhref"
+    if k < 0.3 and doc.count("xlink:href=") >= 2:
+        return re.sub(r"xlink:href=", lambda m: "href=" if rng.random() < 0.5 else m.group(0), doc), label + "_mixedhref"
+    return doc, label
 
 
 KINDS = (use_cycle, use_cycle, clip_cycle, gradient_cycle, gradient_cycle, dangling, malformed, malformed, deep, wide_dag, unsupported)
@@ -235,4 +252,4 @@ def hostile_doc(rng, canary_dir):
     if k < 0.15:
         return entities(rng, canary_dir)
     f = rng.choice(KINDS)
-    return f(rng)
+    return _respell(*f(rng), rng)
